@@ -382,8 +382,9 @@ def drainKafka (fixed : Bool) (k : Int) (s1 : RS) : Outcome × RS :=
     | (.error e, s2) => (.fail e, s2)
   else (.kafka k, s1)
 
-/-- ReadBatchWith + reading the batch to its end + Close; `fixed` = with discardOnKafkaError (D2 fix) and with the
-skip of the message set at the high watermark (C11-D32).
+/-- ReadBatchWith + reading the batch to its end + Close; `fixed` = with discardOnKafkaError (D2 fix), with the
+skip of the message set at the high watermark (C11-D32) and with Batch.close minding the error of its final discard
+(C02-D33).
 Deadlines never expire in the model (checkTimeoutErr = io.EOF). -/
 def fetchRead (fixed : Bool) (v : Nat) (offset : Int) (b : Body) (s : RS) : Outcome × RS :=
   match runSteps (fetchHeader v) { ver := v } s with
@@ -403,10 +404,10 @@ def fetchRead (fixed : Bool) (v : Nat) (offset : Int) (b : Body) (s : RS) : Outc
           (match discardN s3.sz s3 with
            | (.ok _, s4) => (.ok, s4)                           -- remaining() == 0 → io.EOF: batch complete, Close() = nil
            | (.error e, s4) => (.fail (if e = .eof then .unexpectedEOF else e), s4))
-        | (.kafka k, s3) =>                                     -- a kafka error out of ReadMessage: Close discards, Conn kept
-          (match discardN s3.sz s3 with
-           | (.ok _, s4) => (.kafka k, s4)
-           | (.error _, s4) => (.kafka k, s4))
+        | (.kafka k, s3) =>                                     -- a kafka error out of ReadMessage: Close discards, Conn kept —
+          (match discardN s3.sz s3 with                         -- unless the rest cannot be skipped (fix C02-D33; before it
+           | (.ok _, s4) => (.kafka k, s4)                      -- Batch.close ignored the error of msgs.discard())
+           | (.error e, s4) => if fixed then (.fail (if e = .eof then .unexpectedEOF else e), s4) else (.kafka k, s4))
         | (e, s3) => (.fail e, s3)
 
 def connFetch (fixed : Bool) (v : Nat) (offset : Int) (b : Body) (c : Conn) : Outcome × Conn :=
